@@ -308,6 +308,6 @@ def finish_checks(engine, mols, which):
         for node in meta.nodes:
             if not positioned(engine, mi, node):
                 raise Violation("residue_without_position", f"molecule {mi} residue {node} has no position after success")
-    flat = [g for lst in engine.defined_idxs for g in lst]
+    flat = [g for lst in getattr(engine, "defined_idxs", []) for g in lst]
     if len(flat) != len(set(flat)):
         raise Violation("duplicate_position_entry", "a residue is registered twice in the neighbour engine")
